@@ -66,6 +66,56 @@ theorem aggregate_append (xs ys : List Summary) :
 theorem aggregate_singleton (x : Summary) : Summary.aggregate [x] = x :=
   Summary.zero_add x
 
+/-- The aggregated confusion table counts every (hypothesis symbol, reference symbol) pair exactly as
+often as the per-line tables together: aggregation of tables is plain addition, for any number of
+summaries and any nesting (`aggregate_confusions_append`). -/
+theorem aggregate_confusions_count (p : Option α × Option α) (xs : List (List (Option α × Option α))) :
+    (aggregateConfusions xs).count p = (xs.map (List.count p)).sum := by
+  have h : ∀ (acc : List (Option α × Option α)) (ys : List (List (Option α × Option α))),
+      (ys.foldl (· ++ ·) acc).count p = acc.count p + (ys.map (List.count p)).sum := by
+    intro acc ys
+    induction ys generalizing acc with
+    | nil => simp
+    | cons y ys ih => simp [ih, List.count_append, Nat.add_assoc]
+  simpa [aggregateConfusions] using h [] xs
+
+theorem aggregate_confusions_append (p : Option α × Option α) (xs ys : List (List (Option α × Option α))) :
+    (aggregateConfusions [aggregateConfusions xs, aggregateConfusions ys]).count p =
+      (aggregateConfusions (xs ++ ys)).count p := by
+  simp [aggregate_confusions_count]
+
+/-- A line's confusion table holds one pair per reference symbol and one per insertion, and the
+summary's counts are read off it: it is consistent with `ref_len` and `nb_inss`. -/
+theorem confusions_total (ref hyp : List α) :
+    ∃ x, Summary.fromLists ref hyp = some x ∧
+      (Summary.confusions ref hyp).length = x.refLen + x.inss ∧
+      ((Summary.confusions ref hyp).filter fun p => p.2 = none).length = x.inss := by
+  obtain ⟨al, hal, hw, hs, ht, hc⟩ := alignment_ok unit hyp ref
+  have hlen : ∀ l : Alignment α, (l.filter fun p => p.2 ≠ none).length = (tgtOf l).length := by
+    intro l
+    induction l with
+    | nil => rfl
+    | cons p l ih =>
+      obtain ⟨a, b⟩ := p
+      cases b <;> simp_all [tgtOf, List.filter_cons, List.filterMap_cons]
+  have hsplit : ∀ l : Alignment α,
+      (l.filter fun p => p.2 = none).length + (l.filter fun p => p.2 ≠ none).length = l.length := by
+    intro l
+    induction l with
+    | nil => rfl
+    | cons p l ih =>
+      obtain ⟨a, b⟩ := p
+      cases b <;> simp_all [List.filter_cons] <;> omega
+  refine ⟨_, fromLists_eq ref hyp al hal, ?_, ?_⟩
+  · show (Summary.confusions ref hyp).length = ref.length + (al.length - (al.filter fun p => p.2 ≠ none).length)
+    have := hlen al; have := hsplit al
+    simp only [Summary.confusions, hal, Option.getD_some]
+    rw [ht] at *; omega
+  · show ((Summary.confusions ref hyp).filter fun p => p.2 = none).length = al.length - (al.filter fun p => p.2 ≠ none).length
+    have := hsplit al
+    simp only [Summary.confusions, hal, Option.getD_some]
+    omega
+
 /-! Non-vacuity: concrete instances, evaluated by the kernel. -/
 example : dist unit [1, 2, 3, 4] [9, 1, 2] = 3 := by decide
 example : distSub unit [1, 2, 3, 4] [9, 1, 2] = 1 := by decide
